@@ -123,6 +123,40 @@ def pred_values(rng, n, inside):
     special = [0.0, 1.0, -3.0, 7.0, 1e6, -1e6, EPS, 1 - EPS, EPS + 1e-13, EPS - 1e-13, 1 - EPS + 1e-13, 1 - EPS - 1e-13, 0.5]
     return [rng.choice(special) if rng.random() < 0.6 else rng.uniform(0, 1) for _ in range(n)]
 
+def target_values(rng, kind, shape):
+    """targets of several kinds: hard labels, soft labels whose rows sum to exactly 1 (dyadic fractions), multi-hot,
+    all-zero rows, arbitrary values in [0,1], out-of-range values (clipped by the losses)"""
+    n = prod(shape)
+    tk = rng.choice(['hard', 'soft-sum1', 'multihot', 'zero-row', 'unit-interval', 'out-of-range'])
+    if kind == 'ce':
+        rows, k = shape
+        out = []
+        for r in range(rows):
+            if tk == 'hard':
+                row = [0.0] * k; row[rng.randrange(k)] = 1.0
+            elif tk == 'soft-sum1':
+                # dyadic weights: the row sums to exactly 1.0 in binary64
+                cuts = sorted(rng.randint(0, 16) for _ in range(k - 1))
+                parts = [b - a for a, b in zip([0] + cuts, cuts + [16])]
+                row = [v / 16.0 for v in parts]
+            elif tk == 'multihot':
+                row = [float(rng.randint(0, 1)) for _ in range(k)]
+            elif tk == 'zero-row':
+                row = [0.0] * k if r % 2 == 0 else [float(j == 0) for j in range(k)]
+            elif tk == 'unit-interval':
+                row = [rng.uniform(0, 1) for _ in range(k)]
+            else:
+                row = [rng.choice([0.0, 1.0, -3.0, 7.0, 0.5]) for _ in range(k)]
+            out += row
+        return out, tk
+    if tk in ('hard', 'multihot', 'zero-row'):
+        return [float(rng.randint(0, 1)) for _ in range(n)], tk
+    if tk == 'soft-sum1':
+        return [rng.choice([0.25, 0.5, 0.75, 0.125]) for _ in range(n)], tk
+    if tk == 'unit-interval':
+        return [rng.uniform(0, 1) for _ in range(n)], tk
+    return [rng.choice([0.0, 1.0, -3.0, 7.0]) if rng.random() < 0.6 else rng.uniform(0, 1) for _ in range(n)], tk
+
 def gen_C12(rng, tier):
     progs = []
     cnt = 400 if tier == 'quick' else 8000
@@ -143,7 +177,18 @@ def gen_C12(rng, tier):
             yt = [rng.choice([0.0, 1.0, 1e6]) if rng.random() < 0.3 else rng.uniform(-5, 5) for _ in range(n)]
         else:
             yp = pred_values(rng, n, False)
-            yt = [rng.choice([0.0, 1.0, -3.0, 7.0]) if rng.random() < 0.6 else rng.uniform(0, 1) for _ in range(n)]
+            yt, tk = target_values(rng, kind, shape)
+            p.tag('targets-' + tk)
+        if rng.random() < 0.12:
+            # an EARLIER call on the same loss object and batch shape with non-finite / huge entries: whatever the object
+            # keeps from it must not reach the later calls
+            bad = list(yp)
+            for _ in range(rng.randint(1, 2)):
+                bad[rng.randrange(n)] = rng.choice([float('nan'), float('inf'), float('-inf'), 1e308, -1e308])
+            tb = p.tensor(shape, bad, tracked=rng.random() < 0.5)
+            tbt = p.tensor(shape, yt, tracked=False)
+            lb = p.bind('loss %s %s %s' % (j, tb, tbt)); p.add('obs %s' % lb)
+            p.tag('non-finite-earlier-call')
         tp = p.tensor(shape, yp, tracked=False)
         tt = p.tensor(shape, yt, tracked=False)
         l = p.bind('loss %s %s %s' % (j, tp, tt)); p.add('obs %s' % l)
@@ -179,7 +224,16 @@ def gen_C13(rng, tier):
             yp = pred_values(rng, n, True)
             if mode == 'clipped':
                 yp = [rng.choice([0.0, 1.0]) if rng.random() < 0.5 else v for v in yp]
-            yt = [rng.choice([0.0, 1.0]) if rng.random() < 0.5 else rng.uniform(0, 1) for _ in range(n)]
+            yt, tk = target_values(rng, kind, shape)
+            p.tag('targets-' + tk)
+        if rng.random() < 0.12:
+            bad = list(yp)
+            for _ in range(rng.randint(1, 2)):
+                bad[rng.randrange(n)] = rng.choice([float('nan'), float('inf'), float('-inf'), 1e308, -1e308])
+            tb = p.tensor(shape, bad, tracked=rng.random() < 0.5)
+            lb = p.bind('loss %s %s %s' % (j, tb, p.tensor(shape, yt))); p.add('obs %s' % lb)
+            if rng.random() < 0.5: p.add('bp %s' % lb); p.add('obs %s' % tb)
+            p.tag('non-finite-earlier-call')
         depth = rng.randint(0, 3)
         tp0 = p.tensor(shape, yp, tracked=True)
         tp = upstream(p, rng, tp0, depth)
@@ -371,8 +425,22 @@ def gen_C11(rng, tier):
         if i % 3 == 0:
             batch = 1
             if actk == 'softmax': actk = 'sigmoid'
-        f, pw, pb = new_fc(p, rng, fi, fo, custom=True)
-        dead = (lossk == 'mse' and actk == 'relu' and rng.random() < 0.6)
+        how = rng.choice(['custom', 'custom', 'shared-initializer', 'separate-initializers', 'initializer-used-before'])
+        if how == 'custom':
+            f, pw, pb = new_fc(p, rng, fi, fo, custom=True)
+        else:
+            # parameters straight from (constant) initializers: one instance for both parameters, one per parameter, or an
+            # instance that already served another layer
+            i1 = p.bind('init full %s' % f2b(rng.choice([0.5, -0.25, 1.0])), 'i')
+            i2 = i1 if how != 'separate-initializers' else p.bind('init full %s' % f2b(rng.choice([0.5, 0.0])), 'i')
+            if how == 'initializer-used-before':
+                f0 = p.bind('fc %d %d W=%s B=%s' % (fi, fo, i1, i1), 'f')
+                x0 = p.tensor([1, fi], [rng.uniform(-1, 1) for _ in range(fi)])
+                y0 = p.bind('fwd %s %s' % (f0, x0)); p.add('bp %s' % y0)
+            f = p.bind('fc %d %d W=%s B=%s' % (fi, fo, i1, i2), 'f')
+            pw, pb = p.bind('weight %s 0' % f, 'p'), p.bind('weight %s 1' % f, 'p')
+            p.tag(how)
+        dead = (how == 'custom' and lossk == 'mse' and actk == 'relu' and rng.random() < 0.6)
         if dead:
             # every pre-activation is negative: outputs and all gradients are exactly zero
             w0 = p.tensor([fo], [-1.0 - 0.5 * k for k in range(fo)], tracked=True)
